@@ -39,17 +39,25 @@ OBJS = {
     # ids 21, 22: locally declared signals.  One-bit objects (bool / Bit typed):
     "f0": (23, "var", "v", 1, 1), "f1": (24, "var", "v", 1, 1), "g0": (25, "var", "v", 1, 1),
     "sb": (26, "sig", "s", 1, 1), "b0": (27, "out", "s", 1, 1), "b1": (28, "out", "s", 1, 1), "b2": (29, "out", "s", 1, 1),
+    # push targets with every declaration option: port noreset, signal, signal noreset, std.NoresetSignal, Bit port noreset
+    "p2": (30, "push", "s", 1, 8), "ps": (31, "push", "s", 1, 8), "pn": (32, "push", "s", 1, 8), "pr": (33, "push", "s", 1, 8),
+    "pb": (34, "push", "s", 1, 1),
+    # receivers of captured values of other types / widths, Signed variable
+    "w0": (35, "out", "s", 1, 12), "ws": (36, "out", "s", 1, 12), "sg": (37, "out", "s", 1, 8), "bv": (38, "out", "s", 1, 8),
+    "vs": (39, "var", "v", 1, 8),
 }
+SIGNED = {"ws": 12, "sg": 8, "vs": 8}     # reported by the simulator as two's complement integers
 LOC_BASE = 21  # ids of locally declared signals
 INPUTS = ["c0", "c1", "c2", "c3", "x", "y", "idx"]
-PORT_OBS = ["o0", "o1", "o2", "o3", "p0", "p1", "q0", "q1", "b0", "b1", "b2"]
-INNER_OBS = ["s0", "v0", "v1", "vi", "arr", "va", "sb", "f0", "f1", "g0"]
+PORT_OBS = ["o0", "o1", "o2", "o3", "p0", "p1", "q0", "q1", "b0", "b1", "b2", "p2", "pb", "w0", "ws", "sg", "bv"]
+INNER_OBS = ["s0", "v0", "v1", "vi", "arr", "va", "sb", "f0", "f1", "g0", "ps", "pn", "pr", "vs"]
 PRE_OBS = ["q0", "q1"]
 ALL_OBS = ["q0@pre", "q1@pre"] + PORT_OBS + INNER_OBS
 SIG8 = ["o0", "o1", "o2", "o3", "s0"]       # assignable 8-bit signals
-RD_SIG8 = ["x", "y", "o0", "o1", "o2", "o3", "s0", "q0"]
+RD_SIG8 = ["x", "y", "o0", "o1", "o2", "o3", "s0", "q0", "pn", "p2"]
 VAR8 = ["v0", "v1"]
-PUSH8 = ["p0", "p1"]
+PUSH8 = ["p0", "p1", "p2", "ps", "pn", "pr"]
+ALL_PUSHED = PUSH8 + ["pb"]
 BIT_RD = ["c0", "c1", "c2", "c3", "g0", "b0", "b1"]      # Bit typed
 BOOL_RD = ["f0", "f1", "sb", "b2"]                       # bool typed
 ONE_SIG = ["b0", "b1", "b2", "sb"]                       # assignable one-bit signals
@@ -106,7 +114,7 @@ class Gen:
         rng = self.rng
         sigonly = sigonly or sc.get("sigonly")
         r = rng.random()
-        names = [n for n, k in sc["names"].items() if k in ("tmp", "arg", "locsig", "ref", "refv", "alias8")]
+        names = [n for n, k in sc["names"].items() if k in ("tmp", "arg", "locsig", "ref", "refv", "alias8", "alias8x")]
         if names and not sigonly and r < 0.25:
             n = rng.choice(names)
             return ["name", n]
@@ -240,6 +248,8 @@ class Gen:
         """capture the value of a VARIABLE in a local name, reassign the variable, use the capture afterwards:
         the captured value must not change (an alias `x = v` follows the variable instead)"""
         rng = self.rng
+        if rng.random() < 0.45:
+            return self.snapshot_method(sc)
         v = rng.choice(["f0", "f1", "g0", "v0", "v1", "f0", "f1"])
         V = ["obj", v]
         typ = {"f0": "bool", "f1": "bool", "g0": "bit"}.get(v, "8")
@@ -293,6 +303,42 @@ class Gen:
             out.append(["as", "n", ["obj", rng.choice(ONE_SIG)], [rng.choice(["land", "lor"]), N, V], "op"])
         return out
 
+    def snapshot_method(self, sc):
+        """capture through the methods / views of a vector object: resize (equal / larger width, zeros), copy, + 0,
+        concat produce a VALUE (Temporary); .unsigned / .signed / .bitvector and slices are views (ALIASES) of the
+        object.  Source: Variable (reassigned with @=) or Signal (reassigned with <<=, reads stay old-valued)."""
+        rng = self.rng
+        v = rng.choice(["v0", "v1", "vs", "v0", "vs", "s0", "o0"])
+        V = ["obj", v]
+        signed = v == "vs"
+        isvar = v in ("v0", "v1", "vs")
+        self.ntmp += 1
+        nm = f"m{self.ntmp}"
+        # (expression, is_alias, type of the captured value)
+        forms = [(["rsz", V, 8, 0], False, "s8" if signed else "u8"), (["rsz", V, 8, 0], False, "s8" if signed else "u8"),
+                 (["rsz", V, 12, 0], False, "s12" if signed else "u12"), (["copy", V], False, "s8" if signed else "u8"),
+                 (["add", V, ["c", 0, 8]], False, "s8" if signed else "u8"),
+                 (["view", "unsigned", V], True, "u8"), (["view", "signed", V], True, "s8"), (["view", "bitvector", V], True, "bv8"),
+                 (["sl", v, rng.choice([0, 4]), 4], True, "bv4")]
+        if not signed:
+            forms += [(["rsz", V, None, 4], False, "u12"), (["rsz", V, 12, 2], False, "u12"),
+                      (["view", "unsigned", ["catx", V, ["sl", rng.choice(["x", "y"]), rng.choice([0, 4]), 4]]], False, "u12")]
+        e, is_alias, typ = rng.choice(forms)
+        out = [["aliasx" if is_alias else "let", nm, e]]
+        self.stat(("alias-view-" if is_alias else "snapshot-method-") + (e[0] if e[0] != "view" else e[1]) + ("-var" if isvar else "-sig"))
+        if typ == "u8":
+            sc["names"][nm] = "alias8x" if is_alias else "tmp"
+        if rng.random() < 0.25:
+            out.append(self.assign(sc))
+        form = rng.choice(["op", "prop"])
+        new = rng.choice([["add", V, V], ["add", V, ["c", rng.choice([1, 3, 16]), 8]]] + ([] if signed else [self.expr8(sc)]))
+        out.append(["as", "v" if isvar else "n", V, new, form])
+        N = ["name", nm]
+        tgt = {"u8": ["obj", rng.choice(["o1", "o2", "o3"])], "s8": ["obj", "sg"], "u12": ["obj", "w0"], "s12": ["obj", "ws"],
+               "bv8": ["obj", "bv"], "bv4": ["sl", rng.choice(["o1", "o2", "o3"]), rng.choice([0, 4]), 4]}[typ]
+        out.append(["as", "n", tgt, N, "op"])
+        return out
+
     # ---- statements
     def assign(self, sc):
         rng = self.rng
@@ -302,6 +348,9 @@ class Gen:
             e, t = self.bexpr(sc)
             if rng.random() < 0.12:
                 e = ["cb", rng.randrange(2)]
+            if rng.random() < 0.1:
+                self.stat("push-one-bit")
+                return ["as", "p", ["obj", "pb"], e, form]
             if rng.random() < 0.55:
                 self.stat("one-bit-signal")
                 return ["as", "n", ["obj", rng.choice(ONE_SIG)], e, form]
@@ -606,8 +655,9 @@ def gen_design(rng, size, depth):
     g.gen_conc()
     dfl = {n: rng.randrange(256) for n in SIG8 + VAR8 + PUSH8}
     dfl["vi"] = rng.randrange(4)
-    for n in ONE_SIG + ONE_VAR:
+    for n in ONE_SIG + ONE_VAR + ["pb"]:
         dfl[n] = rng.randrange(2)
+    dfl["vs"] = rng.randrange(256)
     return {"body": body, "funcs": g.funcs, "conc": g.conc, "dflt": dfl, "stats": g.stats}
 
 
@@ -632,6 +682,13 @@ def py_expr(e, ent, lv="i"):
         return f"bool({py_expr(e[1], ent, lv)})"
     if k == "copy":
         return f"{py_expr(e[1], ent, lv)}.copy()"
+    if k == "rsz":
+        args = ([str(e[2])] if e[2] is not None else []) + ([f"zeros={e[3]}"] if e[3] else [])
+        return f"{py_expr(e[1], ent, lv)}.resize({', '.join(args)})"
+    if k == "view":
+        return f"{py_expr(e[2], ent, lv)}.{e[1]}"
+    if k == "catx":
+        return f"({py_expr(e[1], ent, lv)} @ {py_expr(e[2], ent, lv)})"
     if k == "valc":
         return f"std.Value[{e[1]}]({py_expr(e[2], ent, lv)})"
     if k == "lv":
@@ -718,6 +775,8 @@ def py_block(stmts, ind, ent, lv="i"):
             out.append(f"{pad}{s[1]} = {py_expr(s[2], ent, lv)}")
         elif k == "alias":
             out.append(f"{pad}{s[1]} = {ent}.{s[2]}")
+        elif k == "aliasx":
+            out.append(f"{pad}{s[1]} = {py_expr(s[2], ent, lv)}")
         elif k == "bind":
             out.append(f"{pad}{s[1]} = {ent}.{s[2]}[{py_expr(s[3], ent, lv)}]")
         elif k == "decl":
@@ -745,7 +804,7 @@ def py_block(stmts, ind, ent, lv="i"):
 
 
 def render_source(d):
-    out = ["import cohdl", "from cohdl import Bit, BitVector, Unsigned, Port, Signal, Variable, Array, Null", "from cohdl import std", ""]
+    out = ["import cohdl", "from cohdl import Bit, BitVector, Unsigned, Signed, Port, Signal, Variable, Array, Null", "from cohdl import std", ""]
     for j, f in enumerate(d["funcs"]):
         out.append(f"def h{j}({', '.join(['e'] + f['params'])}):")
         out += py_block(f["body"], 1, "e") or ["    pass"]
@@ -760,6 +819,12 @@ def render_source(d):
     out.append("    idx = Port.input(Unsigned[2])")
     for n in ("o0", "o1", "o2", "o3", "p0", "p1"):
         out.append(f"    {n} = Port.output(Unsigned[8], default={dfl[n]})")
+    out.append(f"    p2 = Port.output(Unsigned[8], default={dfl.get('p2', 0)}, noreset=True)")
+    out.append(f"    pb = Port.output(Bit, default={bool(dfl.get('pb', 0))}, noreset=True)")
+    out.append("    w0 = Port.output(Unsigned[12], default=Null)")
+    out.append("    ws = Port.output(Signed[12], default=Null)")
+    out.append("    sg = Port.output(Signed[8], default=Null)")
+    out.append("    bv = Port.output(BitVector[8], default=Null)")
     for n in ("b0", "b1"):
         out.append(f"    {n} = Port.output(Bit, default={bool(dfl.get(n, 0))})")
     out.append(f"    b2 = Port.output(bool, default={bool(dfl.get('b2', 0))})")
@@ -771,6 +836,10 @@ def render_source(d):
     out.append(f"        self.v0 = Variable[Unsigned[8]]({dfl['v0']}, name='v0')")
     out.append(f"        self.v1 = Variable[Unsigned[8]]({dfl['v1']}, name='v1')")
     out.append(f"        self.vi = Variable[Unsigned[2]]({dfl['vi']}, name='vi')")
+    out.append(f"        self.ps = Signal[Unsigned[8]]({dfl.get('ps', 0)}, name='ps')")
+    out.append(f"        self.pn = Signal[Unsigned[8]]({dfl.get('pn', 0)}, name='pn', noreset=True)")
+    out.append(f"        self.pr = std.NoresetSignal[Unsigned[8]]({dfl.get('pr', 0)}, name='pr')")
+    out.append(f"        self.vs = Variable[Signed[8]]({dfl.get('vs', 0) - 256 if dfl.get('vs', 0) > 127 else dfl.get('vs', 0)}, name='vs')")
     out.append(f"        self.f0 = Variable[bool]({bool(dfl.get('f0', 0))}, name='f0')")
     out.append(f"        self.f1 = Variable[bool]({bool(dfl.get('f1', 0))}, name='f1')")
     out.append(f"        self.g0 = Variable[Bit]({bool(dfl.get('g0', 0))}, name='g0')")
@@ -819,6 +888,20 @@ class Sx:
             return f"(not (not {self.expr(e[1], env)}))"
         if k == "copy":
             return self.expr(e[1], env)
+        if k == "view":
+            return self.expr(e[2], env)          # a view shows the same bits
+        if k == "catx":
+            return f"(cat {self.expr(e[1], env)} {e[2][3]} {self.expr(e[2], env)})"
+        if k == "rsz":
+            src = self.expr(e[1], env)
+            wsrc = 8
+            padded = f"(cat {src} {e[3]} (c 0))" if e[3] else src
+            wpad = wsrc + e[3]
+            wres = e[2] if e[2] is not None else wpad
+            if e[1] == ["obj", "vs"] and wres > wpad:      # Signed: sign extension
+                ext = ((1 << wres) - 1) ^ ((1 << wpad) - 1)
+                return f"(add {wres} {padded} (sel (rd v {oid('vs')} (c 0) 7 1) (c {ext}) (c 0)))"
+            return padded
         if k == "valc":
             return self.expr(e[2], env)
         if k == "lv":
@@ -838,6 +921,8 @@ class Sx:
                 return f"(t {b[1]})"
             if b[0] == "alias":      # `x = self.v`: the name denotes the object itself
                 return self.expr(["obj", b[1]], env)
+            if b[0] == "aliasx":     # view / slice of an object: evaluated when it is used
+                return self.expr(b[1], env)
             return f"(rd {OBJS[b[2]][2]} {oid(b[2])} (t {b[1]}) 0 8)"     # reference with captured index
         if k == "nsl":
             return f"(sl (t {env[e[1]][1]}) {e[2]} {e[3]})"
@@ -926,6 +1011,8 @@ class Sx:
                 env[s[1]] = ("tmp", kk)
             elif k == "alias":
                 env[s[1]] = ("alias", s[2])
+            elif k == "aliasx":
+                env[s[1]] = ("aliasx", s[2])
             elif k == "bind":
                 kk = self.fresh()
                 out.append(f"(cap {kk} {self.expr(s[3], env)})")
@@ -966,7 +1053,7 @@ class Sx:
             objs.append(f"(o {LOC_BASE + j} s 1 8 0)")
         obs = [oid(n) for n in PORT_OBS + INNER_OBS]
         cs = " ".join(f"(ca (tg {oid(q)} (c 0) 0 8) {e})" for q, e in conc)
-        return (f"(prog (objs {' '.join(objs)}) (pushed {oid('p0')} {oid('p1')}) (body {body}) "
+        return (f"(prog (objs {' '.join(objs)}) (pushed {' '.join(str(oid(n)) for n in ALL_PUSHED)}) (body {body}) "
                 f"(conc {cs}) (obs {' '.join(map(str, obs))}) (pre {oid('q0')} {oid('q1')}))")
 
 
@@ -990,12 +1077,12 @@ def compile_task(src):
         return {"ok": False, "errtype": type(e).__name__, "err": str(e)[-300:]}
 
 
-def fmt(v):
+def fmt(v, signed_width=None):
     if v is None:
         return "-"
     if isinstance(v, list):
         return "/".join(fmt(x) for x in v)
-    return str(int(v))
+    return str(int(v) % (1 << signed_width) if signed_width else int(v))
 
 
 def sim_one(vhdl, seq):
@@ -1019,8 +1106,8 @@ def sim_one(vhdl, seq):
         d.settle()
         vals = [fmt(d.get(n)) for n in PRE_OBS]      # concurrent outputs follow the inputs without a clock edge
         d.clock("clk")
-        vals += [fmt(d.get(n)) for n in PORT_OBS]
-        vals += [fmt(to_py(inner[n].val)) if n in inner else "*" for n in INNER_OBS]
+        vals += [fmt(d.get(n), SIGNED.get(n)) for n in PORT_OBS]
+        vals += [fmt(to_py(inner[n].val), SIGNED.get(n)) if n in inner else "*" for n in INNER_OBS]
         out.append(",".join(vals))
     return ";".join(out)
 
@@ -1233,7 +1320,8 @@ def _as(mode, tgt, e, form="op"):
 def fixed_designs():
     O = lambda n: ["obj", n]  # noqa
     C = lambda n, w=8: ["c", n, w]  # noqa
-    dfl = {"o0": 1, "o1": 2, "o2": 3, "o3": 4, "s0": 5, "p0": 6, "p1": 7, "v0": 1, "v1": 2, "vi": 0}
+    dfl = {"o0": 1, "o1": 2, "o2": 3, "o3": 4, "s0": 5, "p0": 6, "p1": 7, "v0": 1, "v1": 2, "vi": 0,
+           "p2": 8, "ps": 9, "pn": 10, "pr": 11, "pb": 1, "vs": 250}
     ds = []
     # read-after-write of a signal, two writes, last wins, unassigned holds
     ds.append(("law:signal-old/last-wins", [
@@ -1250,7 +1338,12 @@ def fixed_designs():
     ds.append(("law:push-one-step", [
         ["if", [[O("c0"), [_as("p", O("p0"), O("x"))]]], None],
         ["if", [[O("c1"), [_as("p", ["sl", "p1", 4, 4], ["sl", "x", 0, 4])]], [O("c2"), [_as("p", O("p1"), C(99), "prop")]]], None],
-        _as("n", O("o0"), O("p0")), _as("n", O("o1"), O("p1"))], [], []))
+        _as("n", O("o0"), O("p0")), _as("n", O("o1"), O("p1")),
+        # every declaration option of a push target: port noreset, signal, signal noreset, std.NoresetSignal, Bit port noreset
+        ["if", [[O("c3"), [_as("p", O("p2"), O("y")), _as("p", O("ps"), O("y")), _as("p", O("pn"), ["add", O("y"), C(1)]),
+                           _as("p", O("pr"), O("y"), "prop"), _as("p", O("pb"), ["nb", O("pb")])]]], None],
+        ["if", [[["andb", O("c0"), O("c3")], [_as("p", ["sl", "pn", 0, 4], ["sl", "x", 4, 4])]]], None],
+        _as("n", O("o2"), O("pn")), _as("n", O("o3"), O("p2"))], [], []))
     # first true branch only: overlapping conditions in if/elif, for-break chain, match
     ds.append(("law:first-true-branch", [
         ["if", [[O("c0"), [_as("n", O("o0"), C(21))]], [O("c1"), [_as("n", O("o0"), C(22))]], [O("c2"), [_as("n", O("o0"), C(23))]]],
@@ -1297,7 +1390,13 @@ def fixed_designs():
         ["let", "kn", ["land", O("f1"), ["lnot", O("g0")]]],
         ["alias", "a1", "f1"], _as("v", O("f1"), ["lnot", O("f1")], "prop"),
         ["if", [[["name", "a1"], [_as("n", O("o1"), C(71))]]], [_as("n", O("o1"), C(72))]],
-        ["if", [[["name", "kn"], [_as("n", O("o2"), C(73))]]], [_as("n", O("o2"), C(74))]]], [fh], []))
+        ["if", [[["name", "kn"], [_as("n", O("o2"), C(73))]]], [_as("n", O("o2"), C(74))]],
+        # methods that produce a value (resize to the same / a larger width, zeros, + 0, concat) and views (aliases)
+        ["let", "m1", ["rsz", O("v1"), 8, 0]], ["let", "m2", ["rsz", O("vs"), 8, 0]], ["let", "m3", ["rsz", O("vs"), 12, 0]],
+        ["let", "m4", ["rsz", O("v1"), None, 4]], ["aliasx", "m5", ["view", "bitvector", O("v1")]],
+        _as("v", O("v1"), ["add", O("v1"), C(3)]), _as("v", O("vs"), ["add", O("vs"), O("vs")]),
+        _as("n", O("o3"), ["name", "m1"]), _as("n", O("sg"), ["name", "m2"]), _as("n", O("ws"), ["name", "m3"]),
+        _as("n", O("w0"), ["name", "m4"]), _as("n", O("bv"), ["name", "m5"])], [fh], []))
     return [(name, {"body": b, "funcs": f, "conc": c, "dflt": dict(dfl), "stats": {}}) for name, b, f, c in ds]
 
 
